@@ -67,6 +67,7 @@ Predicts(r, M(_)) == LET vs == Variants(r.d) IN \A i \in 1..Len(vs) : VOf(r, vs[
 RefUndefined(r) == LET vs == Variants(r.d) IN \E i \in 1..Len(vs) : ~Defined(RefOut(vs[i]))
 DriftAsWritten == SelectSeq(DriftIdx, LAMBDA i : ~Predicts(Obs[i], LAMBDA v : ImplOut(v, AsWritten)))
 NDriftAsWritten == Len(DriftAsWritten)
+NDriftRenderFixed == Len(SelectSeq(DriftIdx, LAMBDA i : ~Predicts(Obs[i], LAMBDA v : ImplOut(v, OnlyRenderFixed))))
 NDriftFixed == Len(SelectSeq(DriftIdx, LAMBDA i : ~Predicts(Obs[i], LAMBDA v : ImplOut(v, Fixed))))
 NDriftRef == Len(SelectSeq(DriftIdx, LAMBDA i : ~Predicts(Obs[i], RefOut)))
 NRefUndefined == Len(SelectSeq(DriftIdx, LAMBDA i : RefUndefined(Obs[i])))
@@ -81,7 +82,7 @@ Done == l = Len(Obs) + 1 =>
                ELSE [j \in 1..Len(BadIdx) |->
                        [k |-> BadIdx[j], id |-> Obs[BadIdx[j]].id, sig |-> Sig(Obs[BadIdx[j]]), nbad |-> nbad]])
           /\ ndJsonSerialize("drift.ndjson",
-               <<[records |-> Len(DriftIdx), aswritten |-> NDriftAsWritten, fixed |-> NDriftFixed, ref |-> NDriftRef,
+               <<[records |-> Len(DriftIdx), aswritten |-> NDriftAsWritten, renderfixed |-> NDriftRenderFixed, fixed |-> NDriftFixed, ref |-> NDriftRef,
                   ref_undefined |-> NRefUndefined,
                   aswritten_ids |-> [j \in 1..(IF NDriftAsWritten < 20 THEN NDriftAsWritten ELSE 20) |-> Obs[DriftAsWritten[j]].id], calib_bad |-> Len(CalibBad), not_built |-> NotBuilt]>>)
 Consumed == TLCGet("stats").diameter - 1 = Len(Obs)
